@@ -103,6 +103,80 @@ def cells_of(dump, lo, hi):
     return sorted([k, v] for k, v in dump if lo <= k <= hi)
 
 
+# ------------------------------------------------------------------ write algebra on the real blocks
+def _accepted_ranges(desc):
+    """every (address, count>=1) whose cells are all populated, from the description (not from the block)"""
+    if desc['kind'] == 'seq':
+        ks = set(range(desc['address'], desc['address'] + len(desc['values'])))
+    else:
+        ks = set(k for k, _ in desc['items'])
+    out = []
+    for a in sorted(ks):
+        n = 1
+        while a + n - 1 in ks:
+            out.append((a, n))
+            n += 1
+    return out
+
+
+def algebra_probe(ctx, rep, n):
+    """The statements of Props.C18.set_commute_disjoint / set_overwrite / set_idempotent / validate_after_set /
+    get_unaffected_by_disjoint_set, run on the real block classes (two fresh blocks per law, different orders)."""
+    rng = ctx.rng
+    done = 0
+    for _ in range(n):
+        d = gen_block(rng)
+        rs = _accepted_ranges(d)
+        (a1, n1) = rng.choice(rs)
+        disjoint = [(a, k) for a, k in rs if a1 + n1 <= a or a + k <= a1]
+        vs = [rng.randrange(0, 65536) for _ in range(n1)]
+        case = {'kind': 'algebra', 'block': d, 'first': [a1, vs]}
+        try:
+            b = mk_block(d)
+            before = set(k for k, _ in dump_block(b))
+            acc0 = [(a, k, bool(b.validate(a, k))) for a in range(min(before) - 2, max(before) + 3) for k in (1, 2, 3)]
+            b.setValues(a1, list(vs))
+            once = dump_block(b)
+            acc1 = [(a, k, bool(b.validate(a, k))) for a in range(min(before) - 2, max(before) + 3) for k in (1, 2, 3)]
+            b.setValues(a1, list(vs))
+            if dump_block(b) != once:
+                rep.violation('writing the same values to the same range twice changed the block', case)
+                continue
+            if acc0 != acc1:
+                rep.violation('a write changed which ranges the block accepts', case)
+                continue
+            ws = [rng.randrange(0, 65536) for _ in range(n1)]
+            b.setValues(a1, list(ws))
+            c = mk_block(d)
+            c.setValues(a1, list(ws))
+            if dump_block(b) != dump_block(c):
+                rep.violation('an earlier write to a range survives a later write to the same range', dict(case, second=[a1, ws]))
+                continue
+            if disjoint:
+                (a2, n2) = rng.choice(disjoint)
+                us = [rng.randrange(0, 65536) for _ in range(n2)]
+                case = dict(case, second=[a2, us])
+                x, y = mk_block(d), mk_block(d)
+                r0 = as_nat_list(x.getValues(a2, n2))
+                x.setValues(a1, list(vs))
+                if as_nat_list(x.getValues(a2, n2)) != r0:
+                    rep.violation('a write changed what a read of a disjoint range returns', case)
+                    continue
+                x.setValues(a2, list(us))
+                y.setValues(a2, list(us))
+                y.setValues(a1, list(vs))
+                if dump_block(x) != dump_block(y):
+                    rep.violation('writes to two disjoint accepted ranges give different cells in the two orders', case)
+                    continue
+            done += 1
+        except Exception as e:  # noqa
+            rep.violation('a write or read of an accepted range raised %s' % errkind(e), case)
+        finally:
+            if shared_init_intact():
+                _SHARED_INIT.clear()
+    rep.notes.append('write algebra (commute/overwrite/idempotent/no-bleed/validate stable) on the real blocks: %d probes' % done)
+
+
 # ------------------------------------------------------------------ generators
 def gen_block(rng):
     if rng.random() < 0.55:
@@ -501,6 +575,7 @@ def run(ctx):
             cases.append((d, gen_ops(rng, d, n, raw), (max(0, lo - 6), hi + 8)))
         check_block_cases(ctx, rep, cases)
         done += batch
+    algebra_probe(ctx, rep, ctx.scale(1500, 40000))
     slave_cases(ctx, rep, ctx.scale(2000, 60000))
     slave_default_tables(rep)
     server_ctx_cases(ctx, rep, ctx.scale(2000, 60000))
@@ -512,6 +587,8 @@ def replay(ctx, payload):
     c = payload['case']
     if c['kind'] == 'block':
         check_block_cases(ctx, rep, [(c['block'], c['ops'], tuple(c['window']))])
+    elif c['kind'] == 'algebra':
+        return 'replay of the write-algebra probe: re-run the check with the recorded seed (the case names block and ranges)'
     elif c['kind'] == 'slave-defaults':
         slave_default_tables(rep)
     elif c['kind'] == 'sctx' and 'ctor' in c:
